@@ -453,9 +453,39 @@ namespace nmtools::array
             return true;
         }
 
+        // the packed loops read data() of the operands linearly:
+        // only valid for row-major (C-contiguous) operands
+        template <typename T>
+        static constexpr bool is_row_major()
+        {
+            using array_t = meta::remove_cvref_pointer_t<T>;
+            if constexpr (meta::is_tuple_v<array_t>) {
+                bool row_major = true;
+                meta::template_for<meta::len_v<array_t>>([&](auto index){
+                    constexpr auto I = decltype(index)::value;
+                    row_major = row_major && is_row_major<meta::at_t<array_t,I>>();
+                });
+                return row_major;
+            } else if constexpr (meta::is_ndarray_v<array_t>) {
+                constexpr auto axis = meta::contiguous_axis_v<array_t>;
+                if constexpr (meta::is_fail_v<meta::remove_cvref_t<decltype(axis)>>) {
+                    return true;
+                } else {
+                    return axis == -1;
+                }
+            } else {
+                return true;
+            }
+        }
+
         template <typename output_t>
         constexpr auto operator()(output_t& output) const
         {
+            if constexpr (!is_row_major<decltype(get_array(view))>()) {
+                // other layouts: use the default (scalar) evaluator
+                evaluator_t<view_t,none_t,resolver_t>{view,None}(output);
+                return true;
+            } else
             if constexpr (meta::is_reduction_v<view_type>) {
                 return this->eval_reduction(output);
             } else if constexpr (meta::is_outer_v<view_type>) {
